@@ -191,7 +191,9 @@ def verify_function(tu, fname, externs, init=pycfunction_init, config=None,
                if ob.pc is not None else None)
         uniq.setdefault(key, ob)
     for ob in uniq.values():
+        t_ob = time.time()
         discharge(ex, ob, timeout_ms)
+        ob.extra['solve_s'] = round(time.time() - t_ob, 2)
         s = sites.setdefault(ob.site, {'site': ob.site, 'kind': ob.kind,
                                        'text': ob.text, 'line': ob.line,
                                        'instances': 0, 'proved': 0,
@@ -203,6 +205,8 @@ def verify_function(tu, fname, externs, init=pycfunction_init, config=None,
                                                                 bool))}})
         s['instances'] += 1
         s[ob.status] += 1
+        s['max_solve_s'] = max(s.get('max_solve_s', 0.0),
+                               ob.extra.get('solve_s', 0.0))
         if ob.status == 'proved':
             s['by'].add(ob.extra.get('by', 'z3'))
         if ob.status == 'refuted':
